@@ -78,7 +78,7 @@ def parsemsg(s, encoding='utf-8'):
 
     :returns tuple: parsed message in the form of (prefix, command, args)
     """
-    s = s.decode(encoding, 'replace')
+    s = s.decode(encoding, 'replace').rstrip('\r\n')
 
     prefix = ''
     trailing = []
@@ -88,12 +88,13 @@ def parsemsg(s, encoding='utf-8'):
 
     prefix = parseprefix(prefix)
 
+    # parameters are separated by SPACE only (RFC 2812 2.3.1), not by any whitespace
     if s.find(' :') != -1:
         s, trailing = s.split(' :', 1)
-        args = s.split()
+        args = [arg for arg in s.split(' ') if arg]
         args.append(trailing)
     else:
-        args = s.split()
+        args = [arg for arg in s.split(' ') if arg]
 
     args = iter(args)
     command = next(args, None)
